@@ -5,7 +5,7 @@
 set -u
 C=${1:-HEAD}; N=${2:-6}
 SHA=$(git -C /repo rev-parse --short "$C")
-WT=/tmp/suite_$SHA_$$
+WT=/tmp/suite_${SHA}_$$
 git -C /repo worktree add --detach "$WT" "$C" >/dev/null 2>&1 || exit 3
 cd "$WT"
 unset DESOLVER_VERIF
